@@ -6,7 +6,7 @@ import U3.Model.RespCodec
 
 `BytesQueueBuffer`, `_init_length`, `_error_catcher`, `_raw_read` / `_fp_read`, `_decode` /
 `_flush_decoder`, `read`, `read1`, `readinto`, `stream`, `read_chunked` (`_update_chunk_length`,
-`_handle_chunk`), `__iter__`, `.data` / preload — transcribed from `src/urllib3/response.py`,
+`_handle_chunk`), `__iter__`, `.data` / preload, `drain_conn` — transcribed from `src/urllib3/response.py`,
 generic in the body source `Src σ` (the `http.client.HTTPResponse` the wrapper reads from;
 instance `hSrc : Src H`) and in the content decoder `Dec δ` (instance `cdDec`).
 
@@ -460,6 +460,25 @@ def iter (r : R σ δ) : Gen × R σ δ :=
   match stream S D cfg r (some 65536) (some true) with
   | ((ps, none), r) => ((iterSplit ps [], none), r)
   | ((ps, some e), r) => ((iterSplitErr ps [], some e), r)
+
+/-- the exception classes `drain_conn` swallows — `except (HTTPError, OSError, BaseSSLError,
+HTTPException)` —: of the classes the wrapper can raise, the urllib3 `HTTPError`s.  `RuntimeError`,
+`AttributeError` and a decoder's own error class escaping `_flush_decoder` are not in the list and
+propagate (as do the model's `unsupported` / `fuel` outcomes) -/
+def drainSwallows : Exc → Bool
+  | .protocolError => true
+  | .decodeError => true
+  | .responseNotChunked => true
+  | .invalidHeader => true
+  | _ => false
+
+/-- `drain_conn()`: `try: self.read() except (HTTPError, OSError, BaseSSLError, HTTPException): pass`
+— the body is read through `read()` (default `decode_content`, so through `_raw_read` and its
+`_error_catcher`), the bytes are thrown away -/
+def drainConn (r : R σ δ) : Except Exc Unit × R σ δ :=
+  match read S D cfg r none none with
+  | (.ok _, r) => (.ok (), r)
+  | (.error e, r) => if drainSwallows e then (.ok (), r) else (.error e, r)
 
 /-- the `data` property -/
 def data (r : R σ δ) : Except Exc Bytes × R σ δ :=
